@@ -236,7 +236,9 @@ Record tctx := {
   x_tenv : list entry;             (* t.Env *)
   x_matrix : option name;          (* for: matrix: {X: {ref: .NAME}} *)
   x_vprobes : list name;           (* echo {{.N}} *)
-  x_eprobes : list name            (* echo $N *)
+  x_eprobes : list name;           (* echo $N *)
+  x_defers : list (list tpart)     (* templates inside the task's defer: entries (command text, or the
+                                      vars of a deferred task call), rendered lazily by runDeferred *)
 }.
 
 (* facts about the code the model is parameterised over *)
@@ -247,7 +249,9 @@ Record params := {
                                       getVariables templates the task's dir *)
   p_envorder : list string;        (* Extracted.EnvMergeOrder *)
   p_tdot_first : bool;             (* task dotenv: first file wins *)
-  p_matrix_shared : bool           (* resolveMatrixRefs writes into the shared row *)
+  p_matrix_shared : bool;          (* resolveMatrixRefs writes into the shared row *)
+  p_defer_shared : bool            (* the compiled task holds the definition's defer: entries themselves,
+                                      so runDeferred's rendering is written into the shared definition *)
 }.
 
 Definition entries_of (os : vars) (x : tctx) (k : lkind) : list entry :=
@@ -284,7 +288,7 @@ Definition with_task_dir (x : tctx) (d : string) : tctx :=
      x_incvars := x_incvars x; x_incfile := x_incfile x; x_call := x_call x; x_tvars := x_tvars x;
      x_root_dir := x_root_dir x; x_task_dir := d; x_dir_tmpl := x_dir_tmpl x;
      x_tdot := x_tdot x; x_tenv := x_tenv x; x_matrix := x_matrix x;
-     x_vprobes := x_vprobes x; x_eprobes := x_eprobes x |}.
+     x_vprobes := x_vprobes x; x_eprobes := x_eprobes x; x_defers := x_defers x |}.
 
 Definition eval_layers (w : world) (ls : list layer) (st : vars * cache) : vars * cache :=
   fold_left (eval_layer w) ls st.
@@ -386,15 +390,19 @@ Fixpoint rset (n : string) (v : list string) (r : rows) : rows :=
   | (m, w) :: r' => if String.eqb m n then (m, v) :: r' else (m, w) :: rset n v r'
   end.
 
-(* s_rows: MatrixRow.Value of the ref rows of the shared task definitions *)
-Record shared := { s_cache : cache; s_rows : rows }.
+(* s_rows: MatrixRow.Value of the ref rows of the shared task definitions;
+   s_defers: the text of the defer: entries of the shared task definitions, once
+   something has been written over the templates *)
+Record shared := { s_cache : cache; s_rows : rows; s_defers : rows }.
 
-Definition empty_shared : shared := {| s_cache := []; s_rows := [] |}.
+Definition empty_shared : shared := {| s_cache := []; s_rows := []; s_defers := [] |}.
 
-Record outputs := { o_vars : list string; o_env : list string; o_items : list string }.
+Record outputs := { o_vars : list string; o_env : list string; o_items : list string; o_defers : list string }.
 
 (* what a compilation holds between resolveMatrixRefs and product *)
-Record pending := { pd_vars : list string; pd_env : list string; pd_items : list string }.
+Record pending := { pd_vars : list string; pd_env : list string; pd_items : list string; pd_defers : list string }.
+
+Definition has_defers (x : tctx) : bool := match x_defers x with [] => false | _ :: _ => true end.
 
 (* phase 1: variables, environment, and resolveMatrixRefs (a write into the
    shared definitions when p_matrix_shared) *)
@@ -407,10 +415,19 @@ Definition phase1 (w : world) (P : params) (x : tctx) (s : shared) : pending * s
                | None => s_rows s
                | Some _ => if p_matrix_shared P then rset (x_name x) items (s_rows s) else s_rows s
                end in
+  let own := map (fun ps => render ps vs) (x_defers x) in
+  (* runDeferred renders the entry the compiled task holds and stores the result in it: when that
+     entry is the definition's own, the first call's text replaces the template for good *)
+  let defers' := if p_defer_shared P && has_defers x
+                 then match rget (x_name x) (s_defers s) with
+                      | Some _ => s_defers s
+                      | None => rset (x_name x) own (s_defers s)
+                      end
+                 else s_defers s in
   ({| pd_vars := map (fun n => vgetd n vs) (x_vprobes x);
       pd_env := map (fun n => vgetd n cmdenv) (x_eprobes x);
-      pd_items := items |},
-   {| s_cache := c2; s_rows := rows' |}).
+      pd_items := items; pd_defers := own |},
+   {| s_cache := c2; s_rows := rows'; s_defers := defers' |}).
 
 (* phase 2: product(f.Matrix) reads the rows where phase 1 left them *)
 Definition phase2 (P : params) (x : tctx) (pd : pending) (s : shared) : outputs :=
@@ -420,7 +437,10 @@ Definition phase2 (P : params) (x : tctx) (pd : pending) (s : shared) : outputs 
                 | Some _ => if p_matrix_shared P
                             then match rget (x_name x) (s_rows s) with Some v => v | None => [] end
                             else pd_items pd
-                end |}.
+                end;
+     o_defers := if p_defer_shared P && has_defers x
+                 then match rget (x_name x) (s_defers s) with Some v => v | None => pd_defers pd end
+                 else pd_defers pd |}.
 
 Definition compile (w : world) (P : params) (x : tctx) (s : shared) : outputs * shared :=
   let '(pd, s1) := phase1 w P x s in (phase2 P x pd s1, s1).
@@ -555,7 +575,7 @@ Definition ctx_of (fl : mflags) (c : vcase) (special : vars) (dir : string)
      x_call := call; x_tvars := task;
      x_root_dir := c_root_dir c; x_task_dir := dir; x_dir_tmpl := None;
      x_tdot := []; x_tenv := []; x_matrix := None;
-     x_vprobes := c_probes c; x_eprobes := [] |}.
+     x_vprobes := c_probes c; x_eprobes := []; x_defers := [] |}.
 
 Definition mkw (sh : string -> string -> vars -> string) (k : keyspec) (os : vars) (exp : bool) : world :=
   {| w_sh := sh; w_os := os; w_exp := exp; w_os_wins := true; w_key := k |}.
@@ -679,12 +699,13 @@ Definition ectx (env_beats_dot gdot_first : bool) (e : ecase) : tctx :=
      x_gvars := []; x_incvars := []; x_incfile := []; x_call := []; x_tvars := [];
      x_root_dir := ""; x_task_dir := ""; x_dir_tmpl := None;
      x_tdot := n_tdot e; x_tenv := lits (n_tenv e); x_matrix := None;
-     x_vprobes := n_probes e; x_eprobes := n_probes e |}.
+     x_vprobes := n_probes e; x_eprobes := n_probes e; x_defers := [] |}.
 
 (* ---------- monitors of C11 ---------- *)
 
 Definition outputs_eqb (a b : outputs) : bool :=
-  slist_eqb (o_vars a) (o_vars b) && slist_eqb (o_env a) (o_env b) && slist_eqb (o_items a) (o_items b).
+  slist_eqb (o_vars a) (o_vars b) && slist_eqb (o_env a) (o_env b) && slist_eqb (o_items a) (o_items b)
+  && slist_eqb (o_defers a) (o_defers b).
 
 (* the task printed the same alone and in context *)
 Definition mon_same (alone in_ctx : outputs) : bool := outputs_eqb alone in_ctx.
